@@ -2261,7 +2261,11 @@ class Power(Array):
             return
         func = self.func
         newpower = multiply(self.power, n)
-        if iszero(self.power % astype(2, self.power.dtype)) and not iszero(newpower % astype(2, newpower.dtype)):
+        p = self.power._const_uniform
+        m = n._const_uniform
+        if p is None or m is None:
+            return # parity of the powers is unknown: merging could lose an absolute value
+        if p % 2 == 0 and (p * m) % 2 != 0:
             func = abs(func)
         return Power(func, newpower)
 
